@@ -617,3 +617,30 @@ func edgesWhere(f *ssa.Function, pred func(cond ssa.Value, truth bool) bool) []c
 	}
 	return out
 }
+
+// sameFieldLoad: a and b are the same value, or two loads of the same field of the same object while the enclosing
+// function never stores to that field (decoded message fields are read, not written, by the decoders).
+func sameFieldLoad(a, b ssa.Value) bool {
+	if sameValue(a, b) {
+		return true
+	}
+	ua, ok1 := a.(*ssa.UnOp)
+	ub, ok2 := b.(*ssa.UnOp)
+	if !ok1 || !ok2 || ua.Op != token.MUL || ub.Op != token.MUL {
+		return false
+	}
+	fa, ok1 := ua.X.(*ssa.FieldAddr)
+	fb, ok2 := ub.X.(*ssa.FieldAddr)
+	if !ok1 || !ok2 || fa.Field != fb.Field || !sameFieldLoad(fa.X, fb.X) || fa.X.Type() != fb.X.Type() {
+		return false
+	}
+	written := false
+	eachInstr(ua.Parent(), func(_ *ssa.BasicBlock, _ int, in ssa.Instruction) {
+		if st, ok := in.(*ssa.Store); ok {
+			if f, ok := st.Addr.(*ssa.FieldAddr); ok && f.Field == fa.Field && f.X.Type() == fa.X.Type() {
+				written = true
+			}
+		}
+	})
+	return !written
+}
